@@ -33,13 +33,13 @@ PROPS = {
               'a callback waits at exactly the (index, term) its command was appended with; request ids never reused.',
               ['that a SUCCESS-reported command is never undone later (global, see C04)', 'timeouts'],
               'linear typestate by event counting over path-sensitive CFG exploration, guard entailment, def-use'),
-    'C03': _p(['R-vote-grant', 'R-term-vote-writes', 'R-majority', 'R-leader-entry', 'R-step-down', 'R-leader-append-position', 'R-match-writes'],
+    'C03': _p(['R-vote-grant', 'R-term-vote-writes', 'R-majority', 'R-leader-entry', 'R-step-down', 'R-leader-append-position', 'R-match-writes', 'R-tally-reset'],
               'the five Raft vote-grant conditions are entailed at the grant; term only grows and the vote is reset only with a term change; every majority '
               'test is a strict majority of voters+self over the voter set; LEADER is entered only behind a majority test as CANDIDATE of the current term; '
               'newer terms / accepted append_entries lead to FOLLOWER.',
               ['the global counting argument (one leader per term follows from these local rules plus FIFO links)', 'vote duplication across restarts (C07)'],
               'path-sensitive must-fact guard entailment, small-domain evaluation of extracted majority arithmetic'),
-    'C04': _p(['R-commit-rule', 'R-match-writes', 'R-ack-after-store', 'R-truncate-on-conflict', 'R-commit-gate', 'R-leader-append-position', 'R-sender-prev-adjacent', 'R-applied-monotone', 'R-majority'],
+    'C04': _p(['R-commit-rule', 'R-match-writes', 'R-ack-after-store', 'R-truncate-on-conflict', 'R-commit-gate', 'R-leader-append-position', 'R-sender-prev-adjacent', 'R-applied-monotone', 'R-majority', 'R-rollback-paired'],
               'leader commits only an index stored on a strict majority of voters whose entry has the current term; matchIndex only raised for a successful reply, '
               'upwards, to the acknowledged index; positive acknowledgement only after gate + store (or completed install) with a recognised index; truncation only on '
               'conflict; follower commit only on verified paths, monotone and bounded by the leader commit.',
